@@ -3,6 +3,7 @@ package props
 import (
 	"errors"
 	"fmt"
+	"runtime"
 	"sync"
 	"sync/atomic"
 	"time"
@@ -207,14 +208,16 @@ func targetedResponseVsTimeout(c *core.Ctx, rounds int, oracles oracleSet) {
 		wg.Add(2)
 		go func() {
 			defer wg.Done()
-			for atomic.LoadInt32(&start) == 0 { //nolint:revive // spin barrier
+			for atomic.LoadInt32(&start) == 0 { // spin barrier (yielding)
+				runtime.Gosched()
 			}
 			r.tickAt(now)
 		}()
 		resp := response(id, fmt.Sprintf("collision-%d", k))
 		go func() {
 			defer wg.Done()
-			for atomic.LoadInt32(&start) == 0 { //nolint:revive // spin barrier
+			for atomic.LoadInt32(&start) == 0 { // spin barrier (yielding)
+				runtime.Gosched()
 			}
 			r.deliver(id, resp, true)
 		}()
@@ -297,7 +300,8 @@ func targetedSimultaneousClose(c *core.Ctx, rounds int, o rigOpts) {
 					}
 				}()
 				ready.Done()
-				for atomic.LoadInt32(&start) == 0 { //nolint:revive // spin barrier
+				for atomic.LoadInt32(&start) == 0 { // spin barrier (yielding: the releasing goroutine needs a CPU too)
+					runtime.Gosched()
 				}
 				results[i] = r.client.Close()
 			}(i)
@@ -392,8 +396,8 @@ func targetedNoConnCloseWaitsForReader(c *core.Ctx, defaultAgent bool) {
 }
 
 func c15Targeted(c *core.Ctx) {
-	c.SectionSerial("targeted-simultaneous-close", 4, func(i int64, _ *gen.Rand) {
-		targetedSimultaneousClose(c, int(c.N(1500, 20000)), rigOpts{noConnClose: i%2 == 1, defaultAgent: i/2 == 1})
+	c.Section("targeted-simultaneous-close", 16, func(i int64, _ *gen.Rand) {
+		targetedSimultaneousClose(c, int(c.N(400, 6000)), rigOpts{noConnClose: i%2 == 1, defaultAgent: i/2%2 == 1})
 		c.Distinct(uint64(i) | 10<<50)
 	})
 	c.SectionSerial("targeted-noconnclose-waits-for-reader", 2, func(i int64, _ *gen.Rand) {
